@@ -139,7 +139,9 @@ impl G {
     }
 
     fn write_op(&mut self, s: u32) -> String {
-        match self.r.below(4) {
+        match self.r.below(6) {
+            4 => format!("gkm {} {}", s, self.r.range(1, 9)),
+            5 => format!("bcw {} {}", s, self.r.range(1, 9)),
             0 => format!("acl {} {}", s, self.r.range(200, 203)),
             1 => format!("grp {} {}", s, self.r.range(1, 3)),
             2 => format!("label {} {}", s, self.r.range(1, 4)),
@@ -335,11 +337,33 @@ fn gen_case(out: &mut Out, cas: &Rc<Vec<Ca>>, id: u64, seed_rng: &mut Rng, prop:
 /// tick boundary (the real 1-second poll and the few virtual milliseconds every exchange costs)
 fn h_compat(ops: &[String]) -> Vec<String> {
     let mut res = Vec::new();
+    // the session of the most recent session-borne op: carries the extra interactions below
+    let mut last_sid: u64 = 0;
     for op in ops {
         let w: Vec<&str> = op.split_whitespace().collect();
         let n = |i: usize| -> u64 { w.get(i).and_then(|x| x.parse().ok()).unwrap_or(0) };
-        match w.first().copied().unwrap_or("") {
-            "acl" | "grp" | "net" | "rmnet" | "freset" | "corrupt" | "poll" | "hs" | "hsdone" | "coldreset" | "fabrecover" | "bcw" => {}
+        let kind = w.first().copied().unwrap_or("");
+        if ["open", "arm", "csr", "root", "addnoc", "updnoc", "acl", "grp", "label", "net", "rmnet", "complete", "rmfab", "revoke", "bcw", "gkm"].contains(&kind) {
+            last_sid = n(1);
+        }
+        match kind {
+            "freset" | "corrupt" | "hs" | "hsdone" | "coldreset" | "fabrecover" => {}
+            // group table writes have no handler on the root endpoint: a group key map write instead
+            "grp" => res.push(format!("gkm {} {}", n(1), n(2))),
+            // the real 1-second poll runs anyway: a subscription over the last session instead
+            "poll" => res.push(format!("sub {}", last_sid)),
+            "flush" => {
+                res.push(op.clone());
+                res.push(format!("bind {} {}", last_sid, 300 + n(1) % 3));
+            }
+            "label" => {
+                res.push(op.clone());
+                res.push(format!("nlabel {} {}", n(1), n(2)));
+            }
+            "open" => {
+                res.push(op.clone());
+                res.push(format!("ulabel {} {}", n(1), 1 + n(1) % 4));
+            }
             "arm" => {
                 let t = if n(2) == 0 { 0 } else if n(2) < 100 { 61 } else { 122 };
                 res.push(format!("arm {} {}", n(1), t));
@@ -347,6 +371,7 @@ fn h_compat(ops: &[String]) -> Vec<String> {
             "tick" => res.push(format!("tick {}", if n(1) < 30 { 7 } else if n(1) < 250 { 203 } else { 504 })),
             "cest" => res.push(format!("cest {} 100 {}", n(1), n(3))),
             "addnoc" => res.push(format!("addnoc {} {} {} {} {} {}", n(1), n(2), n(3), n(4), if n(5) == 0 { 0 } else { 100 }, n(6))),
+            // the admin subject must stay the CASE peer (the real access check runs): other subjects are fine as additions
             _ => res.push(op.clone()),
         }
     }
